@@ -44,6 +44,7 @@ type Decl struct {
 	Alt        bool   `json:"alt,omitempty"`        // the default is the second standard value of the type (multi-operation sweep)
 	AllowEmpty bool   `json:"allowEmpty,omitempty"` // allowEmptyValue (query / formData only)
 	Valid      string `json:"valid,omitempty"`      // named validation set, see validationJSON
+	Registry   string `json:"registry,omitempty"`   // "" the default formats registry | "own" the application's registry (userfmt.go)
 }
 
 // Req is one request (the input axis): the occurrences of the parameter in its
@@ -75,12 +76,18 @@ func (d Decl) in() string {
 	return d.Loc
 }
 
-// elemType/elemFormat: the type whose literals the texts (or items) are.
+// elem: the type whose literals the texts (or items) are, and the key of its
+// literal table: the format name, prefixed with "own:" for the formats the
+// application's own registry defines (their texts denote something else there).
 func (d Decl) elem() (string, string) {
+	t, f := d.Type, d.Format
 	if d.Type == "array" {
-		return d.ItemType, d.ItemFormat
+		t, f = d.ItemType, d.ItemFormat
 	}
-	return d.Type, d.Format
+	if d.Registry == "own" && (f == "x-shout" || f == "hexcolor") {
+		f = "own:" + f
+	}
+	return t, f
 }
 
 // ---- the standard default of each type (JSON form and denotation) ----
@@ -121,6 +128,12 @@ func scalarDefault(tpe, format string, alt bool) (any, val) {
 			return "10.0.0.1", sv("10.0.0.1")
 		case "duration":
 			return "3s", val{K: "int", I: 3e9}
+		case "own:x-shout":
+			return "ab", sv("AB")
+		case "own:hexcolor":
+			return "#FFAA00", sv("#ffaa00")
+		case "hexcolor":
+			return "#FFAA00", sv("#FFAA00")
 		}
 		return "ab", sv("ab")
 	}
@@ -137,10 +150,17 @@ func (d Decl) defaultValue() (any, val) {
 		case "boolean":
 			return []any{true, false}, lv(bv(true), bv(false))
 		default:
+			switch _, f := d.elem(); f {
+			case "own:x-shout":
+				return []any{"ab", "cd"}, lv(sv("AB"), sv("CD"))
+			case "own:hexcolor":
+				return []any{"#FFAA00", "#000000"}, lv(sv("#ffaa00"), sv("#000000"))
+			}
 			return []any{"ab", "cd"}, lv(sv("ab"), sv("cd"))
 		}
 	}
-	return scalarDefault(d.Type, d.Format, d.Alt)
+	t, f := d.elem()
+	return scalarDefault(t, f, d.Alt)
 }
 
 // validationJSON adds the keywords of the named validation set to m (the
